@@ -225,16 +225,16 @@ func checkRevolve(ctx *Ctx, r *Report) {
 		th := Call("math.Mod", Call("math.Abs", A("theta")), tauC)
 		a := opEval("sdf", Call("math.Sqrt", Add(Mul(pX, pX), Mul(pY, pY))), pZ)
 		d := Add(Mul(Neg(Call("math.Sin", th)), pX), Mul(Call("math.Cos", th), pY))
-		nz := Cmp("!=", th, K(0))
+		nz := Cmp("==", th, K(0)) // the source tests θ != 0, held as !(θ == 0): truth values below are those of θ == 0
 		lt := Cmp("<", th, piC)
 		cases := []struct {
 			name  string
 			truth map[string]bool
 			want  *Term
 		}{
-			{"full-revolution", map[string]bool{nz.Key(): false, lt.Key(): true}, a},
-			{"less-than-half-turn", map[string]bool{nz.Key(): true, lt.Key(): true}, Call("math.Max", a, Call("math.Max", Neg(pY), d))},
-			{"half-turn-or-more", map[string]bool{nz.Key(): true, lt.Key(): false}, Call("math.Max", a, Call("math.Min", Neg(pY), d))},
+			{"full-revolution", map[string]bool{nz.Key(): true, lt.Key(): true}, a},
+			{"less-than-half-turn", map[string]bool{nz.Key(): false, lt.Key(): true}, Call("math.Max", a, Call("math.Max", Neg(pY), d))},
+			{"half-turn-or-more", map[string]bool{nz.Key(): false, lt.Key(): false}, Call("math.Max", a, Call("math.Min", Neg(pY), d))},
 		}
 		conds := map[string]bool{}
 		for _, c := range condAtoms(t) {
@@ -937,18 +937,18 @@ func screwSpec(ctx *Ctx, r *Report, rule string) {
 		z := Sub(pZ, Mul(Conv("float64", A("starts")), A("pitch"), th, Div(K(1), tauC)))
 		x0 := Call(modPath+"/sdf.SawTooth", z, A("pitch"))
 		clip := Sub(Call("math.Abs", pZ), half(A("length")))
-		tp := Cmp("!=", A("taper"), K(0))
+		tp := Cmp("==", A("taper"), K(0)) // taper != 0 is held as !(taper == 0)
 		conds := condAtoms(t)
 		okC := len(conds) == 0 || (len(conds) == 1 && conds[0].Key() == tp.Key())
 		if !okC {
 			r.check(rule, "Screw3D|case-structure", fn.Pos(), false, "unexpected case distinctions: "+shortKey(t.Key(), 300))
 			continue
 		}
-		plain := assume(t, map[string]bool{tp.Key(): false})
+		plain := assume(t, map[string]bool{tp.Key(): true})
 		want := Call("math.Max", clip, opEval("thread", x0, rr))
 		r.check(rule, "Screw3D|helix-right-handed-period-pitch", fn.Pos(), equalRat(plain, want),
 			"untapered: max(|z|−length/2, thread(SawTooth(z − starts·pitch·θ/τ, pitch), r)); composite = "+shortKey(plain.Key(), 300))
-		tap := assume(t, map[string]bool{tp.Key(): true})
+		tap := assume(t, map[string]bool{tp.Key(): false})
 		wantT := Call("math.Max", clip, opEval("thread", x0, Add(rr, Mul(pZ, Call("math.Atan", A("taper"))))))
 		r.check(rule, "Screw3D|taper-shifts-the-radius-linearly-in-z", fn.Pos(), equalRat(tap, wantT), "tapered: radius argument r + z·atan(taper); composite = "+shortKey(tap.Key(), 300))
 	}
